@@ -199,3 +199,8 @@ package graph
 //@     mustcall Node.AddToEdgeDiv edge: $arg0 == iter(parent) && $arg1 == n when n != nil && iter(parent) != nil
 //@     invariant nonempty: len(lines) >= 1
 //@     invariant idx: -1 <= lidx && lidx < len(lines)
+
+// ---- C18: DOT nodelets. The numeric nodelets hanging off a string-tag nodelet are emitted only when that nodelet
+// itself was declared (non-zero weight), so no edge starts at an undeclared node ----
+//@ func builder.addNodelets nosafety funcvalues=pure
+//@   callsite builder.numericNodelets declared: w != 0
